@@ -44,6 +44,10 @@ def tails(rng, tier, label_len):
     yield "ascii-pvl-like", b"a = 1\nGROUP = g\n b = (1,\n"
     yield "nuls", b"\0" * rng.randint(1, 300)
     yield "punctuation", b"= = ( { < ' \" /* ;;"
+    # decodable data that stops in the middle of a multi-byte character
+    yield "ends-inside-a-multibyte-character", rng.choice(
+        ("data \u20ac".encode("utf-8")[:-1], b"\xc3", "x\U0001F600".encode("utf-8")[:-2],
+         b"\n" + "\xe9".encode("utf-8")[:1]))
     if rng.random() < (0.15 if tier == "quick" else 0.5):
         yield "long-unbroken-run", b"A" * big
     # valid multi-byte text whose characters straddle 4096/8192-byte block
